@@ -67,6 +67,12 @@ theorem bitenc_refines (w : Nat) (hw : 1 ≤ w ∧ w ≤ 8) (ops : List Op) :
   have := h.2
   simpa [specBlocks, perBlock, nrBlocks] using this
 
+/-- every block of the model stays a 32-bit word in every history (the `u32` storage of the Rust code is modelled
+with explicit `% 2^32`; nothing ever needs a 33rd bit) -/
+theorem bitenc_blocks_u32 (w : Nat) (hw : 1 ≤ w ∧ w ≤ 8) (ops : List Op) :
+    ∀ x ∈ (ops.foldl (step w) new).storage, x < 2 ^ 32 :=
+  wf_run w hw ops new (by intro x hx; simp [new] at hx)
+
 /-- the spec vector holds width-masked values only -/
 theorem bitenc_spec_masked (w : Nat) (ops : List Op) :
     ∀ x ∈ ops.foldl (specStep w) [], x < 2 ^ w := by
